@@ -69,6 +69,12 @@ theorem user_updates_target :
     layerOfUpdate "model_specification" = some "model_override" ∧
     layerOfUpdate "configuration" = some "override" := by decide
 
+/-- `~/vivarium.yaml` is written at `user_configs`, which is below the layer of the component defaults
+(a value from that file is a fallback, it does not beat a default) -/
+theorem home_layer_below_defaults :
+    layerOfUpdate "user_config_path" = some "user_configs" ∧
+    layers.idxOf "user_configs" < layers.idxOf defaultsLayer := by decide
+
 /-- the two user layers are the two outermost layers, in this order -/
 theorem user_layers_on_top :
     layers = layers.take (layers.length - 2) ++ ["model_override", "override"] := by decide
@@ -124,7 +130,7 @@ theorem override_beats_model (c : Config) (hwf : c.WF) (p : Path) (v w : Val)
 /-- everything that is known once `simulate` has succeeded -/
 theorem accepted (sc : Script) (user : List (String × Path × Val)) (mgrs : List (String × Defaults))
     (ts : List Tree) (s : Sim) (h : simulate sc user mgrs ts = .ok s) :
-    (∀ u ∈ user, u.1 = "model_specification" ∨ u.1 = "configuration") ∧
+    (∀ u ∈ user, u.1 = "model_specification" ∨ u.1 = "configuration" ∨ u.1 = "user_config_path") ∧
     s.cfg.entries = user.map userEntry ++ mgrEntries mgrs ++ compEntries (preorderL ts) ∧
     s.cfg.WF ∧ s.cfg.frozen = true ∧ s.started = true ∧
     s.log = mgrs.map (·.1) ++ (preorderL ts).map Tree.name ∧ s.log.Nodup ∧
@@ -140,7 +146,7 @@ theorem accepted (sc : Script) (user : List (String × Path × Val)) (mgrs : Lis
   obtain ⟨tn, ht, htf⟩ := q.tried
   obtain ⟨sn, hsn, hsf⟩ := q.seen
   refine ⟨hu, by rw [q.entries, he], ?_, by rw [hf', hef], by rw [hs', hes], ?_, ?_, ?_, ?_⟩
-  · unfold Config.WF Config.keys at *; rw [q.entries]; exact hwf
+  · exact wf_of_entries s3.cfg s.cfg q.entries hwf
   · rw [hl', hlog, hm, hc]; simp
   · rw [hl', hlog, hm, hc]; simpa [hm, hc] using hnd (by decide)
   · intro x hx; rw [ht, htried] at hx; exact htf x (by simpa using hx)
@@ -202,9 +208,10 @@ theorem user_wins (sc : Script) (user : List (String × Path × Val)) (mgrs : Li
       · rcases List.mem_append.mp hmem with hmem | hmem
         · obtain ⟨u, huu, rfl⟩ := List.mem_map.mp hmem
           obtain ⟨w, q, x⟩ := u
-          rcases hu _ huu with hw | hw <;> simp only at hw <;> subst hw
+          rcases hu _ huu with hw | hw | hw <;> simp only at hw <;> subst hw
           · simp [userEntry, hms] at hl
           · simp only [userEntry] at hp; subst hp; exact hno x huu
+          · simp [userEntry, home_layer_below_defaults.1] at hl
         · simp only [mgrEntries, mkEntries, List.mem_flatMap, List.mem_map] at hmem
           obtain ⟨_, _, _, _, rfl⟩ := hmem
           exact defaultsLayer_ne.1 hl
@@ -236,7 +243,8 @@ theorem two_defaults_rejected (sc : Script) (user : List (String × Path × Val)
   | ok s =>
     exfalso; apply h
     obtain ⟨_, he, hwf, _⟩ := accepted sc user mgrs ts s hs
-    unfold Config.WF Config.keys at hwf
+    have hwf := hwf.1
+    unfold Config.keys at hwf
     rw [he, List.append_assoc, List.map_append] at hwf
     have hk := (List.nodup_append.mp hwf).2.1
     have : (mgrEntries mgrs ++ compEntries (preorderL ts)).map Entry.key =
@@ -246,6 +254,48 @@ theorem two_defaults_rejected (sc : Script) (user : List (String × Path × Val)
     rw [this] at hk
     rw [flatten_eq]
     exact nodup_of_map _ _ hk
+
+/-- the same key defaulted at different depths: if one default path (of a manager or of a component
+anywhere in the forest) lies strictly below another one, the bootstrap fails -/
+theorem conflicting_defaults_rejected (sc : Script) (user : List (String × Path × Val))
+    (mgrs : List (String × Defaults)) (ts : List Tree) (p q : Path)
+    (hp : p ∈ mgrs.flatMap (fun m => m.2.map (·.1)) ++ (flatten ts).flatMap (fun t => t.defaults.map (·.1)))
+    (hq : q ∈ mgrs.flatMap (fun m => m.2.map (·.1)) ++ (flatten ts).flatMap (fun t => t.defaults.map (·.1)))
+    (hne : p ≠ q) (hpq : Config.under p q = true) :
+    ∃ e, simulate sc user mgrs ts = .error e := by
+  cases hs : simulate sc user mgrs ts with
+  | error e => exact ⟨e, rfl⟩
+  | ok s =>
+    exfalso
+    obtain ⟨_, he, hwf, _⟩ := accepted sc user mgrs ts s hs
+    have hmem : ∀ x, x ∈ mgrs.flatMap (fun m => m.2.map (·.1)) ++ (flatten ts).flatMap (fun t => t.defaults.map (·.1)) →
+        ∃ e ∈ s.cfg.entries, e.path = x := by
+      intro x hx
+      rw [flatten_eq] at hx
+      rw [he]
+      rcases List.mem_append.mp hx with hx | hx
+      · simp only [List.mem_flatMap, List.mem_map] at hx
+        obtain ⟨m, hm, kv, hkv, rfl⟩ := hx
+        refine ⟨⟨defaultsLayer, kv.1, kv.2⟩, ?_, rfl⟩
+        apply List.mem_append_left; apply List.mem_append_right
+        simp only [mgrEntries, mkEntries, List.mem_flatMap, List.mem_map]
+        exact ⟨m, hm, kv, hkv, rfl⟩
+      · simp only [List.mem_flatMap, List.mem_map] at hx
+        obtain ⟨t, ht, kv, hkv, rfl⟩ := hx
+        refine ⟨⟨defaultsLayer, kv.1, kv.2⟩, ?_, rfl⟩
+        apply List.mem_append_right
+        simp only [compEntries, mkEntries, List.mem_flatMap, List.mem_map]
+        exact ⟨t, ht, kv, hkv, rfl⟩
+    obtain ⟨e1, h1, rfl⟩ := hmem p hp
+    obtain ⟨e2, h2, rfl⟩ := hmem q hq
+    have := hwf.2 e1 h1 e2 h2 hne
+    rw [this] at hpq; cases hpq
+
+/-- … and in general no accepted bootstrap ends with a value at a key and another one strictly below
+it – whoever supplied them (user layers included) -/
+theorem accepted_prefix_free (sc : Script) (user : List (String × Path × Val)) (mgrs : List (String × Defaults))
+    (ts : List Tree) (s : Sim) (h : simulate sc user mgrs ts = .ok s) : s.cfg.PF :=
+  (accepted sc user mgrs ts s h).2.2.1.2
 
 /-! FULL STATEMENT (not provable – false of the system as it is, recorded finding F18):
 
@@ -326,6 +376,17 @@ theorem witness_rejected :
     simulate sc1 u1 m1 (t1 ++ [.node "x" [("s.j", "7")] []]) = .error .dupValue ∧
     simulate sc1 u1 m1 (t1 ++ [.node "x" [("population.size", "7")] []]) = .error .dupValue ∧
     simulate sc1 (u1 ++ [("configuration", "t.k", "301")]) m1 t1 = .error .dupValue := by decide
+
+/-- … and the shape conflicts: a component defaulting a key below another component's leaf, a
+component defaulting a whole section a manager uses, a user value below a default; a value from
+`~/vivarium.yaml` loses to a default and to the model specification and is used where nobody else speaks -/
+theorem witness_depths_and_home :
+    simulate sc1 u1 m1 (t1 ++ [.node "x" [("s.j.deep", "7")] []]) = .error .structure ∧
+    simulate sc1 u1 m1 (t1 ++ [.node "x" [("population", "7")] []]) = .error .structure ∧
+    simulate sc1 (u1 ++ [("configuration", "s.j.deep", "1")]) m1 t1 = .error .structure ∧
+    (simulate sc1 (("user_config_path", "s.j", "70") :: ("user_config_path", "s.k", "71") ::
+        ("user_config_path", "zz", "72") :: u1) m1 t1).toOption.map (fun s => sc1.probes.map s.cfg.get) =
+      some [some "10", some "300", some "2", some "72"] := by decide
 
 /-- … concretely: the user's override `t.k = 300` of `witness_accepted` is lost by `del cfg.t` -/
 theorem witness_delete_after_freeze :
